@@ -1413,7 +1413,45 @@ func pqScenarios() []*sched.Scenario {
 			}
 		}
 	}}
+	stackScenario := &sched.Scenario{Name: "threadsafe-stack/2xpop-vs-push", Run: func() {
+		st := stack.New[int](true)
+		st.Push(1)
+		st.Push(2)
+		st.Push(3)
+		var got [2][]int
+		vrt.Par(
+			func() {
+				for i := 0; i < 2; i++ {
+					if v, ok := st.Pop(); ok {
+						got[0] = append(got[0], v)
+					}
+				}
+			},
+			func() {
+				if v, ok := st.Pop(); ok {
+					got[1] = append(got[1], v)
+				}
+			},
+			func() { st.Push(4) },
+		)
+		seen := map[int]int{}
+		for _, g := range got {
+			for _, v := range g {
+				seen[v]++
+			}
+		}
+		for st.Size() > 0 {
+			v, _ := st.Pop()
+			seen[v]++
+		}
+		for v := 1; v <= 4; v++ {
+			if seen[v] != 1 {
+				vrt.Fail("stack-element-count", "element %d was popped %d times in total (popped concurrently: %v)", v, seen[v], got)
+			}
+		}
+	}}
 	return []*sched.Scenario{
+		stackScenario,
 		storageScenario,
 		shrinkScenario,
 		{Name: "priorityqueue/handle-vs-2pops", Run: func() {
@@ -1458,7 +1496,7 @@ func main() {
 		parts = append(parts, hist.Part(d.name, func(c *cli.Ctx) []*hist.System { return []*hist.System{allSystems(c)[i].system()} }))
 	}
 	cli.Main(&cli.Property{
-		ID: "C12", Level: "model_checking", Parts: parts, Scenarios: pqScenarios(), QuickBound: 2, ThoroughBound: 3, QuickUnbounded: true, ThoroughUnbounded: true, Cache: true, QuickSecs: 50, ThoroughSecs: 600,
+		ID: "C12", Level: "model_checking", Parts: parts, Scenarios: pqScenarios(), RaceHB: &cli.RaceHB{QuickBound: 1, ThoroughBound: 2}, QuickBound: 2, ThoroughBound: 3, QuickUnbounded: true, ThoroughUnbounded: true, Cache: true, QuickSecs: 50, ThoroughSecs: 600,
 		Rule:        "one explicit-state search per container and option setting over all operation histories on a small universe against its abstract model (Go map, sorted multiset, bounded FIFO, last-N list, LIFO, queue of first-time pushes, windowed sum on a virtual clock, map of maps, map + expected callback log, per-client multisets); merged systems run to the fixpoint of the reachable model state space, unmerged ones to a depth bound; every return value, every read-only probe and every emitted callback/event is compared after every step; distinct = distinct states",
 		Assumptions: []string{"random picks are checked for membership/distinctness only (8 repetitions per state)", "TimeHeap: entries older than a previously queried window are forgotten (AveragePerSecond prunes them)", "event order between independent topics of one clean-up is unspecified (compared as multisets)"},
 		NotReached:  []string{"universes larger than 3-4 keys", "concurrent use of these containers other than the PriorityQueue removal handles (3 scenarios, all interleavings)"},
